@@ -762,6 +762,57 @@ where
             return Err(Error::InvalidExtensionVersion(raw.version));
         }
 """, "")]),
+    ("c03-wrapper-key-is-ephemeral", ["C03"], [], [(CORE + "groups.rs", "        let export_nostr_keys: Keys = Keys::new(secret_key);", "        let export_nostr_keys: Keys = Keys::generate();\n        let _ = secret_key;")]),
+    ("c10-state-string-renamed-one-way", ["C10"], [], [(TR + "messages/types.rs", """            Self::Deleted => "deleted",
+            Self::EpochInvalidated => "epoch_invalidated",
+        }""", """            Self::Deleted => "deleted",
+            Self::EpochInvalidated => "invalidated",
+        }""")]),
+    ("c13-stored-key-differs-from-generated", ["C13"], [], [(SQL + "keyring.rs", "    entry.set_secret(config.key()).map_err(|e| match e {", "    entry.set_secret(&[0u8; 32]).map_err(|e| match e {")]),
+    ("c15-welcome-encoding-defaulted", ["C15"], [], [(CORE + "welcomes.rs", """        let encoding = match ContentEncoding::from_tags(welcome_event.tags.iter()) {
+            Some(enc) => enc,
+            None => {""", """        let encoding = match Some(ContentEncoding::Base64) {
+            Some(enc) => enc,
+            None => {""")]),
+    ("c17-decrypt-own-aad", ["C17"], [], [(CORE + "encrypted_media/crypto.rs", """    let scheme_label = get_scheme_label(scheme_version)?;
+    let aad = build_aad(scheme_label, file_hash, mime_type, filename);
+
+    cipher
+        .decrypt(""", """    let scheme_label = get_scheme_label(scheme_version)?;
+    let mut aad = scheme_label.to_vec();
+    aad.extend_from_slice(file_hash);
+    aad.extend_from_slice(mime_type.as_bytes());
+    aad.extend_from_slice(filename.as_bytes());
+
+    cipher
+        .decrypt(""")]),
+    ("c17-decrypt-aad-swapped-args", ["C17"], [], [(CORE + "encrypted_media/crypto.rs", """    let aad = build_aad(scheme_label, file_hash, mime_type, filename);
+
+    cipher
+        .decrypt(""", """    let aad = build_aad(scheme_label, file_hash, filename, mime_type);
+
+    cipher
+        .decrypt(""")]),
+    ("c09-snapshot-misses-exporter-secrets", ["C09"], [], [(SQL + "lib.rs", """            Self::snapshot_group_exporter_secrets(
+                &conn,
+                &mut insert_stmt,
+                name,
+                group_id_bytes,
+                now,
+            )?;
+""", "")]),
+    ("c16-relays-saved-before-dedup", ["C16"], [], [(CORE + "welcomes.rs", """        // Validate welcome event structure per MIP-02
+        Self::validate_welcome_event(rumor_event)?;
+""", """        // Validate welcome event structure per MIP-02
+        Self::validate_welcome_event(rumor_event)?;
+        let _ = self.storage().save_processed_welcome(welcome_types::ProcessedWelcome {
+            wrapper_event_id: *wrapper_event_id,
+            welcome_event_id: rumor_event.id,
+            processed_at: Timestamp::now(),
+            state: welcome_types::ProcessedWelcomeState::Processed,
+            failure_reason: None,
+        });
+""")]),
     ("c20-no-prune-after-hydration", ["C20"], [], [(CORE + "epoch_snapshots.rs", """        // Enforce retention limit after hydration
         while queue.len() > self.retention_count {
             if let Some(old_snap) = queue.pop_front() {
